@@ -15,6 +15,7 @@ import (
 	vaxis "git.sr.ht/~rockorager/vaxis"
 	"git.sr.ht/~rockorager/vaxis/ansi"
 	"verif/harness/hx"
+	"verif/harness/parsehx"
 )
 
 // ---------- the unicode oracle, from Go's own tables ----------
@@ -224,6 +225,9 @@ type harness struct {
 	mstring *hx.Stream
 	cross   *hx.Stream
 	pipe    *hx.Stream
+	stream  *hx.Stream
+	streamRetries int
+	streamDirect  []hx.DirectViolation
 	keys    []vaxis.Key // decoded keys, reused as events by the other streams
 	names   []vaxis.VerifKeyName
 	special []vaxis.VerifSpecialKey
@@ -1279,10 +1283,481 @@ func (h *harness) genPipeline() []hx.DirectViolation {
 	drain(20 * time.Millisecond)
 	paste = false
 	send("z", "after-paste")
+	// keys behind terminal replies (a reply yields no Key event and must not affect the next key)
+	for _, rp := range []string{"\x1b]11;rgb:0000/0000/0000\x07", "\x1b]10;rgb:ffff/ffff/ffff\x1b\\", "\x1b]4;1;rgb:cd00/0000/0000\x07"} {
+		fc.InjectString(rp)
+		drain(20 * time.Millisecond)
+		send("a", "after-reply")
+		send("\x1b\\", "after-reply")
+		send("\x1bb", "after-reply")
+	}
 	if !hx.WithTimeout(3*time.Second, vx.Close) {
 		direct = append(direct, hx.DirectViolation{Class: "pipeline-close-hang", Case: "close", What: "Close did not return"})
 	}
 	return direct
+}
+
+
+// ---------- stream: several reports through ONE parser instance + decodeKey ----------
+//
+// A report is what a terminal sends as one unit: a key report in the legacy or the kitty
+// encoding, or a reply to a query (OSC colour answers, CSI/DCS/APC replies).  A case feeds a
+// list of reports to one long-lived ansi.Parser and decodes every delivered sequence with
+// decodeKey; each report is also fed alone to a fresh parser.  The property on the
+// observation: the stream's events are the concatenation of the reports' own events.
+
+type sreport struct {
+	bytes  string
+	gap    bool          // a silence longer than the escape timer follows
+	exp    ansi.Sequence // the sequence these bytes are the canonical wire form of (nil: none)
+	enc    string        // Coq term of the encoding the report was built from ("" none)
+	kind   string
+	reply  bool
+	opener bool // starts with ESC or leaves/enters a parser state other than ground
+}
+
+type event struct {
+	term string
+	js   string
+	rs   []rune
+}
+
+const streamGap = 60 * time.Millisecond
+
+// runParser feeds the segments (a silence before every segment but the first) to a fresh
+// parser and decodes everything it delivers.
+func runParser(segs []string) (evs []event, hung bool) {
+	rd := &parsehx.ChunkReader{Gap: streamGap, GapAt: map[int]bool{}}
+	for i, s := range segs {
+		rd.Chunks = append(rd.Chunks, []byte(s))
+		if i > 0 {
+			rd.GapAt[i] = true
+		}
+	}
+	p := ansi.NewParser(rd)
+	deadline := time.After(10 * time.Second)
+	for {
+		select {
+		case seq, ok := <-p.Next():
+			if !ok {
+				return evs, false
+			}
+			switch seq.(type) {
+			case ansi.EOF:
+				continue
+			case error:
+				continue
+			}
+			st := seqTerm(seq)
+			sj := fmt.Sprint(seqJSON(seq))
+			var rs []rune
+			if pr, ok := seq.(ansi.Print); ok {
+				rs = append(rs, []rune(pr.Grapheme)...)
+			}
+			if c, ok := seq.(ansi.CSI); ok {
+				for _, pm := range c.Parameters {
+					for _, x := range pm {
+						rs = append(rs, rune(x))
+					}
+				}
+			}
+			var k vaxis.Key
+			if panicked, msg := hx.Catch(func() { k = vaxis.VerifDecodeKey(seq) }); panicked {
+				k = vaxis.Key{Keycode: -424242, Text: "panic: " + msg}
+			}
+			p.Finish(seq)
+			rs = append(rs, keyRunes(k)...)
+			evs = append(evs, event{hx.Tuple(st, keyTerm(k)), sj + " -> " + k.String(), rs})
+		case <-deadline:
+			return evs, true
+		}
+	}
+}
+
+func segsOf(rs []sreport) []string {
+	var segs []string
+	cur := ""
+	for _, r := range rs {
+		cur += r.bytes
+		if r.gap {
+			segs = append(segs, cur)
+			cur = ""
+		}
+	}
+	return append(segs, cur)
+}
+
+func eventsEqual(a, b []event) bool {
+	if len(a) != len(b) {
+		return false
+	}
+	for i := range a {
+		if a[i].term != b[i].term {
+			return false
+		}
+	}
+	return true
+}
+
+// canonical wire bytes of a sequence (mirror of kseq_wire in model/KeysStream.v)
+func seqBytes(s ansi.Sequence) string {
+	switch s := s.(type) {
+	case ansi.Print:
+		return s.Grapheme
+	case ansi.C0:
+		return string(rune(s))
+	case ansi.ESC:
+		return "\x1b" + string(s.Final)
+	case ansi.SS3:
+		return "\x1bO" + string(rune(s))
+	case ansi.CSI:
+		parts := make([]string, len(s.Parameters))
+		for i, pm := range s.Parameters {
+			sub := make([]string, len(pm))
+			for j, v := range pm {
+				sub[j] = fmt.Sprint(v)
+			}
+			parts[i] = strings.Join(sub, ":")
+		}
+		return "\x1b[" + strings.Join(parts, ";") + string(s.Final)
+	}
+	panic("no wire form")
+}
+
+func repPrint(r rune) sreport {
+	g := string(r)
+	return sreport{bytes: g, exp: ansi.Print{Grapheme: g, Width: 1}, enc: "(EPrint " + hx.Runes(g) + ")", kind: "print"}
+}
+func repC0(b int) sreport {
+	return sreport{bytes: string(rune(b)), exp: ansi.C0(b), enc: fmt.Sprintf("(EC0 %d)", b), kind: "c0"}
+}
+func repLoneEsc() sreport {
+	return sreport{bytes: "\x1b", gap: true, exp: ansi.C0(27), enc: "(EC0 27)", kind: "lone-esc", opener: true}
+}
+func repEsc(c rune) sreport {
+	return sreport{bytes: "\x1b" + string(c), exp: ansi.ESC{Final: c}, enc: fmt.Sprintf("(EEsc %d)", c), kind: "esc", opener: true}
+}
+func repSs3(c rune) sreport {
+	return sreport{bytes: "\x1bO" + string(c), exp: ansi.SS3(c), enc: fmt.Sprintf("(ESs3 %d)", c), kind: "ss3", opener: true}
+}
+func repShape(x shape, emptyZero bool) sreport {
+	r := sreport{bytes: x.bytes(emptyZero), enc: x.term(), kind: "csi-key", opener: true}
+	if r.bytes == x.bytes(false) {
+		r.exp = ansi.CSI{Parameters: x.params(), Final: x.fin}
+	}
+	return r
+}
+func repSeq(s ansi.Sequence, kind string) sreport {
+	return sreport{bytes: seqBytes(s), exp: cloneSeq(s), kind: kind, opener: true}
+}
+func repReply(b, kind string) sreport {
+	return sreport{bytes: b, kind: kind, reply: true, opener: true}
+}
+
+func escFinalOK(c rune) bool {
+	return c >= 48 && c <= 127 && !strings.ContainsRune("OPX[]^_", c)
+}
+
+// replies a terminal sends to the queries vaxis issues (sequences.go), with both string terminators
+func replyReports() []sreport {
+	var out []sreport
+	for _, pl := range []string{"10;rgb:ffff/ffff/ffff", "11;rgb:0000/0000/0000", "12;rgb:8080/8080/8080",
+		"4;1;rgb:cd00/0000/0000", "52;c;aGVsbG8=", "176;vaxis", "8;;", "0;title é", "11;?"} {
+		out = append(out, repReply("\x1b]"+pl+"\x07", "osc-bel"), repReply("\x1b]"+pl+"\x1b\\", "osc-st"))
+	}
+	for _, b := range []string{"\x1b[?62;4;22c", "\x1b[>1;4000;29c", "\x1b[?2027;2$y", "\x1b[?2026;1$y", "\x1b[12;40R", "\x1b[?1u", "\x1b[?31u",
+		"\x1b[4;600;800t", "\x1b[8;24;80t", "\x1b[48;24;80;600;800t", "\x1b[I", "\x1b[O", "\x1b[?997;1n", "\x1b[?997;2n", "\x1b[0n",
+		"\x1b[<0;10;5M", "\x1b[<0;10;5m", "\x1b[<35;1;1M", "\x1b[200~", "\x1b[201~", "\x1b[?12;2$y", "\x1b[1;1R"} {
+		out = append(out, repReply(b, "csi-reply"))
+	}
+	for _, b := range []string{"\x1bP>|foot(1.16.2)\x1b\\", "\x1bP1$r0m\x1b\\", "\x1bP1+r5463=323536\x1b\\", "\x1bP0$rx\x1b\\", "\x1bP!|00000000\x1b\\"} {
+		out = append(out, repReply(b, "dcs-reply"))
+	}
+	for _, b := range []string{"\x1b_Gi=1;OK\x1b\\", "\x1b_Gi=31,p=1;ENOENT:x\x1b\\"} {
+		out = append(out, repReply(b, "apc-reply"))
+	}
+	return out
+}
+
+var plainRunes = []rune{0xE9, 0xDF, 0x416, 0x436, 0x3A9, 0x4E2D, 0x3042, 0x20AC, 0xC9}
+
+func (h *harness) randKeyReport() sreport {
+	switch h.pick(12) {
+	case 0, 1:
+		return repPrint(rune(0x20 + h.pick(0x60)))
+	case 2:
+		return repPrint(plainRunes[h.pick(len(plainRunes))])
+	case 3:
+		b := h.pick(32)
+		if b == 27 {
+			return repLoneEsc()
+		}
+		return repC0(b)
+	case 4, 5:
+		for {
+			c := rune(48 + h.pick(80))
+			if escFinalOK(c) {
+				return repEsc(c)
+			}
+		}
+	case 6:
+		return repEsc('\\')
+	case 7:
+		return repSs3(rune("ABCDFHPQRSEM"[h.pick(12)]))
+	case 8:
+		// legacy function keys
+		switch h.pick(3) {
+		case 0:
+			return repShape(shape{n: 1, fin: rune("ABCDEFHPQRSZ"[h.pick(12)]), m: 1 + h.pick(64), n1: 1}, false)
+		case 1:
+			return repShape(shape{n: []int{1, 2, 3, 4, 5, 6, 7, 8, 11, 15, 17, 21, 23, 24, 25, 34}[h.pick(16)], fin: '~', m: h.pick(17), n1: h.pick(2)}, false)
+		}
+		return repSeq(ansi.CSI{Final: rune("ABCDEFHPQRSZ"[h.pick(12)])}, "csi-key")
+	case 9:
+		return repShape(shape{n: 27, fin: '~', m: 1 + h.pick(16), n1: 1, hasTx: false}, false)
+	}
+	// kitty, any layout of the optional fields
+	c := 0x20 + h.pick(0x5F)
+	if h.pick(4) == 0 {
+		c = int(h.special[h.pick(len(h.special))].Code)
+	}
+	if h.pick(8) == 0 {
+		c = int(sampleRunes[h.pick(len(sampleRunes))])
+	}
+	x := shape{n: c, fin: 'u', n0: h.pick(3), n1: h.pick(3), s: int(unicode.ToUpper(rune(c))), b: c, m: h.pick(258), e: h.pick(5)}
+	if h.pick(3) == 0 {
+		x.s = 0
+	}
+	if h.pick(3) == 0 {
+		x.hasTx, x.tx = true, []int{c}
+		if h.pick(3) == 0 {
+			x.tx = append(x.tx, 0x301)
+		}
+	}
+	return repShape(x, h.pick(3) == 0)
+}
+
+func (h *harness) addStream(rs []sreport, tags ...string) {
+	type attempt struct {
+		obs   []event
+		alone [][]event
+		hung  bool
+	}
+	run := func() attempt {
+		var a attempt
+		a.obs, a.hung = runParser(segsOf(rs))
+		for _, r := range rs {
+			segs := []string{r.bytes}
+			if r.gap {
+				segs = append(segs, "")
+			}
+			ev, hg := runParser(segs)
+			a.hung = a.hung || hg
+			a.alone = append(a.alone, ev)
+		}
+		return a
+	}
+	consistent := func(a attempt) bool {
+		var cat []event
+		for i, r := range rs {
+			cat = append(cat, a.alone[i]...)
+			if r.exp != nil && (len(a.alone[i]) != 1 || !strings.HasPrefix(a.alone[i][0].term, "("+seqTerm(r.exp)+", ")) {
+				return false
+			}
+		}
+		return !a.hung && eventsEqual(a.obs, cat)
+	}
+	// the escape timer (10 ms) is a real-time race outside the model: an attempt disturbed by
+	// scheduling is repeated; a deterministic difference persists
+	a := run()
+	for try := 0; try < 3 && !consistent(a); try++ {
+		h.streamRetries++
+		a = run()
+	}
+	if a.hung {
+		h.streamDirect = append(h.streamDirect, hx.DirectViolation{Class: "stream-parser-hang", Case: fmt.Sprintf("%q", segsOf(rs)),
+			What: "the parser did not reach the end of its input"})
+		return
+	}
+	var rsAll []rune
+	for _, e := range a.obs {
+		rsAll = append(rsAll, e.rs...)
+	}
+	var rterms []string
+	var rjs []interface{}
+	var cat []string
+	nontriv := false
+	for i, r := range rs {
+		for _, e := range a.alone[i] {
+			rsAll = append(rsAll, e.rs...)
+			cat = append(cat, e.js)
+		}
+		exp, enc := hx.None, hx.None
+		if r.exp != nil {
+			exp = hx.Some(seqTerm(r.exp))
+		}
+		if r.enc != "" {
+			enc = hx.Some(r.enc)
+		}
+		al := make([]string, len(a.alone[i]))
+		aj := make([]string, len(a.alone[i]))
+		for j, e := range a.alone[i] {
+			al[j], aj[j] = e.term, e.js
+		}
+		rterms = append(rterms, hx.Tuple(hx.Bytes([]byte(r.bytes)), hx.Bool(r.gap), exp, enc, hx.List(al)))
+		rjs = append(rjs, map[string]interface{}{"bytes": fmt.Sprintf("%q", r.bytes), "kind": r.kind, "silence_after": r.gap, "alone": aj})
+		if i > 0 && i == len(rs)-1 {
+			for _, q := range rs[:i] {
+				nontriv = nontriv || q.opener
+			}
+		}
+	}
+	ot := make([]string, len(a.obs))
+	oj := make([]string, len(a.obs))
+	for j, e := range a.obs {
+		ot[j], oj[j] = e.term, e.js
+	}
+	h.stream.Add(hx.Tuple(utab(rsAll...), hx.List(rterms), hx.List(ot)),
+		map[string]interface{}{"input": fmt.Sprintf("%q", segsOf(rs)), "reports": rjs, "one_parser_instance": oj, "each_report_alone": cat},
+		nontriv, tags...)
+}
+
+func (h *harness) genStream() {
+	th := h.cfg.Thorough()
+	replies := replyReports()
+	// histories: every reply, and the key reports that pass through a parser state other than ground
+	hist := append([]sreport{}, replies...)
+	hist = append(hist, repEsc('\\'), repEsc('a'), repEsc(0x7F), repSs3('P'), repLoneEsc(), repC0(0x18), repC0(0x1A), repC0(7),
+		repShape(shape{n: 1, fin: 'A', m: 5, n1: 1}, false), repShape(shape{n: 97, fin: 'u', s: 65, n0: 1, m: 2, n1: 1, hasTx: true, tx: []int{65}}, false),
+		repPrint('a'), repPrint(0xE9))
+	// probes: what must arrive intact after each history
+	var escProbes []sreport
+	for c := rune(48); c <= 127; c++ {
+		if escFinalOK(c) {
+			escProbes = append(escProbes, repEsc(c))
+		}
+	}
+	probes := []sreport{repEsc('\\'), repLoneEsc(), repPrint('a'), repPrint('\\'), repPrint(']'), repPrint('['), repPrint('O'), repPrint('P'),
+		repPrint('_'), repPrint('^'), repPrint('X'), repPrint(0x7F), repPrint(0x416),
+		repC0(13), repC0(9), repC0(0), repC0(7), repC0(0x18), repC0(0x1A), repC0(0x1C),
+		repSs3('A'), repSs3('P'), repSeq(ansi.CSI{Final: 'A'}, "csi-key"), repSeq(ansi.CSI{Final: 'Z'}, "csi-key"),
+		repShape(shape{n: 1, fin: 'B', m: 5, n1: 1}, false), repShape(shape{n: 3, fin: '~'}, false), repShape(shape{n: 15, fin: '~', m: 6, n1: 1}, false),
+		repShape(shape{n: 97, fin: 'u', m: 5, n1: 1}, false), repShape(shape{n: 92, fin: 'u', m: 3, n1: 1}, false),
+		repShape(shape{n: 97, fin: 'u', s: 65, b: 97, n0: 2, m: 2, e: 1, n1: 2, hasTx: true, tx: []int{65}}, true),
+		repShape(shape{n: 27, fin: '~', m: 6, n1: 1, hasTx: true, tx: []int{9}}, false), repShape(shape{n: 57399, fin: 'u', m: 129, n1: 1}, false)}
+	fillers := [][]sreport{nil, {repPrint('a')}, {repPrint('a'), repPrint('b'), repC0(13)}, {repC0(1)}, {repPrint(0xE9), repC0(9)}}
+	for _, hr := range hist {
+		// the string terminator as a key, after every filler
+		for _, f := range fillers {
+			rs := append(append([]sreport{hr}, f...), repEsc('\\'), repPrint('y'))
+			h.addStream(rs, "directed-alt-backslash", "history-"+hr.kind)
+		}
+		ps := append([]sreport{}, probes...)
+		if th {
+			ps = append(ps, escProbes...)
+		} else {
+			for i := 0; i < 6; i++ {
+				ps = append(ps, escProbes[h.pick(len(escProbes))])
+			}
+		}
+		for _, pr := range ps {
+			if !th && pr.gap && h.pick(3) != 0 {
+				continue // silences cost real time
+			}
+			rs := append(append([]sreport{hr}, fillers[h.pick(len(fillers))]...), pr)
+			h.addStream(rs, "directed-probe", "history-"+hr.kind)
+		}
+	}
+	// every ESC-prefixed key twice in a row, and after a lone Esc
+	for _, pr := range escProbes {
+		h.addStream([]sreport{pr, pr, repPrint('y')}, "esc-twice")
+		if th || h.pick(6) == 0 {
+			h.addStream([]sreport{repLoneEsc(), pr}, "after-lone-esc")
+		}
+	}
+	// both encodings of a both-expressible chord in one stream, behind a history
+	type chord struct {
+		k rune
+		m int
+	}
+	var chords []chord
+	for k := rune(32); k <= 126; k++ {
+		for m := 0; m <= 4; m++ {
+			chords = append(chords, chord{k, m})
+		}
+	}
+	chords = append(chords, chord{vaxis.KeyTab, 0}, chord{vaxis.KeyTab, 1}, chord{vaxis.KeyEnter, 0}, chord{vaxis.KeyEsc, 0},
+		chord{vaxis.KeyBackspace, 0}, chord{vaxis.KeyBackspace, 2})
+	for _, k := range namedChordKeys {
+		for m := 0; m < 64; m++ {
+			chords = append(chords, chord{k, m})
+		}
+	}
+	for _, c := range chords {
+		ls := legacyEncs(c.k, c.m)
+		if len(ls) == 0 {
+			continue
+		}
+		if !th && c.k > unicode.MaxRune && c.m > 2 && h.pick(8) != 0 {
+			continue
+		}
+		ks := kittyEncs(c.k, c.m)
+		for _, sl := range ls {
+			var lr sreport
+			if c0, ok := sl.(ansi.C0); ok && c0 == 27 {
+				lr = repLoneEsc()
+			} else {
+				lr = repSeq(sl, "chord-legacy")
+			}
+			n := 1
+			if th {
+				n = 4
+			}
+			for i := 0; i < n; i++ {
+				rs := []sreport{hist[h.pick(len(hist))]}
+				if h.pick(2) == 0 {
+					rs = append(rs, h.randKeyReport())
+				}
+				rs = append(rs, lr)
+				if h.pick(2) == 0 {
+					rs = append(rs, replies[h.pick(len(replies))])
+				}
+				rs = append(rs, repSeq(ks[h.pick(len(ks))].seq, "chord-kitty"))
+				if !th && lr.gap && h.pick(2) == 0 {
+					continue
+				}
+				h.addStream(rs, "chord-both-encodings")
+			}
+		}
+	}
+	// random histories
+	n := 700
+	if th {
+		n = 40000
+	}
+	for i := 0; i < n; i++ {
+		var rs []sreport
+		gaps := 0
+		for j := 2 + h.pick(9); j > 0; j-- {
+			var r sreport
+			if h.pick(3) == 0 {
+				r = replies[h.pick(len(replies))]
+			} else {
+				r = h.randKeyReport()
+			}
+			if r.gap {
+				if gaps >= 1 || (!th && h.pick(4) != 0) {
+					continue
+				}
+				gaps++
+			}
+			rs = append(rs, r)
+		}
+		if len(rs) < 2 {
+			continue
+		}
+		h.addStream(rs, "random")
+	}
 }
 
 func main() {
@@ -1296,14 +1771,16 @@ func main() {
 		mstring: hx.NewStream("mstring", "model.Keys", "mstring_case", "c09_mstring_mismatches", "c09_mstring_violations"),
 		cross:   hx.NewStream("cross", "model.Keys", "cross_case", "c09_cross_mismatches", "c09_cross_violations"),
 		pipe:    hx.NewStream("pipeline", "model.Keys", "pipeline_case", "c09_pipeline_mismatches", "c09_pipeline_violations"),
+		stream:  hx.NewStream("stream", "model.Keys model.KeysStream", "stream_case", "c09_stream_mismatches", "c09_stream_violations"),
 		names:   vaxis.VerifKeyNames(),
 		special: vaxis.VerifSpecialsKeys(),
 	}
-	for _, s := range []*hx.Stream{h.oracle, h.decode, h.match, h.str, h.mstring, h.cross, h.pipe} {
+	for _, s := range []*hx.Stream{h.oracle, h.decode, h.match, h.str, h.mstring, h.cross, h.pipe, h.stream} {
 		s.ShardMax = 1500
 	}
 	h.oracle.ShardMax = 4000
 	h.cross.ShardMax = 150
+	h.stream.ShardMax = 250
 	t0 := time.Now()
 	h.genOracle()
 	h.genDecode()
@@ -1311,14 +1788,17 @@ func main() {
 	h.genStrings()
 	h.genCross()
 	direct := h.genPipeline()
-	streams := []*hx.Stream{h.oracle, h.decode, h.match, h.str, h.mstring, h.cross, h.pipe}
-	extra := map[string]interface{}{"harness_seconds": time.Since(t0).Seconds()}
+	h.genStream()
+	direct = append(direct, h.streamDirect...)
+	streams := []*hx.Stream{h.oracle, h.decode, h.match, h.str, h.mstring, h.cross, h.pipe, h.stream}
+	extra := map[string]interface{}{"harness_seconds": time.Since(t0).Seconds(), "stream_attempts_repeated_for_timing": h.streamRetries}
 	cfg.Write("C09", "oracle: Go's unicode tables on ASCII, out-of-range runes, every lower-case rune (stride in quick); "+
 		"decode: decodeKey on legacy bytes, C0, ESC, SS3, every specialsKeys entry x modifier parameters x event types, CSI u with every layout of the optional fields, other scripts, xterm modifyOtherKeys, random and malformed parameter lists; "+
 		"match: Key.Matches of decoded and synthetic events against related/random bindings, each evaluated twice with lock bits toggled; "+
 		"string: Key.String and MatchString of it; mstring: MatchString on printed and malformed binding strings; "+
 		"cross: every both-expressible chord, each legacy encoding against kitty encodings (all pairs in thorough), String() of both and Matches of both against bindings around the chord; "+
-		"pipeline: encodings written byte-wise to the fake console of a real Vaxis, Key events read from Events(), including a bracketed paste. "+
-		"non-trivial = decode: a special-key, modifier, event, alternate-code or text path is taken; match: the call returned true; string: more than one character; mstring: the call returned true; oracle: the rune has a class or a case mapping; cross: the chord has modifiers or the two protocols differ; pipeline: more than one byte",
+		"pipeline: encodings written byte-wise to the fake console of a real Vaxis, Key events read from Events(), including a bracketed paste and keys behind OSC replies; "+
+		"stream: lists of reports (key reports in every legacy and kitty encoding, OSC/CSI/DCS/APC replies with BEL and ST terminators, the Esc key with a real silence) through ONE ansi.Parser + decodeKey, each report also alone through a fresh parser: every reply/state-changing report followed by fillers and each probe key (every ESC-prefixed key incl. ESC \\), both encodings of each both-expressible chord behind a history, random histories. "+
+		"non-trivial = decode: a special-key, modifier, event, alternate-code or text path is taken; match: the call returned true; string: more than one character; mstring: the call returned true; oracle: the rune has a class or a case mapping; cross: the chord has modifiers or the two protocols differ; pipeline: more than one byte; stream: the last report comes after a reply or an ESC-introduced report",
 		streams, extra, direct)
 }
